@@ -21,7 +21,14 @@ use std::os::unix::io::AsRawFd;
 fn log(db: &str, msg: &str) {
     if let Ok(path) = std::env::var("FAKE_LOG") {
         if let Ok(mut f) = std::fs::OpenOptions::new().append(true).create(true).open(path) {
-            let t = std::time::SystemTime::now().duration_since(std::time::UNIX_EPOCH).unwrap().as_nanos();
+            // CLOCK_MONOTONIC is system-wide: comparable across the engine processes of one run and
+            // immune to adjustments of the wall clock
+            let mut ts = Timespec { tv_sec: 0, tv_nsec: 0 };
+            let t: u128 = if unsafe { clock_gettime(1, &mut ts) } == 0 {
+                ts.tv_sec as u128 * 1_000_000_000 + ts.tv_nsec as u128
+            } else {
+                std::time::SystemTime::now().duration_since(std::time::UNIX_EPOCH).unwrap().as_nanos()
+            };
             // one write syscall per line (O_APPEND keeps lines of concurrent engines apart)
             let line = format!("{} {} {} {}\n", t, std::process::id(), db, msg);
             let _ = f.write_all(line.as_bytes());
@@ -48,7 +55,14 @@ fn bump() -> u64 {
     n
 }
 
+#[repr(C)]
+struct Timespec {
+    tv_sec: i64,
+    tv_nsec: i64,
+}
+
 extern "C" {
+    fn clock_gettime(clk: i32, ts: *mut Timespec) -> i32;
     fn flock(fd: i32, op: i32) -> i32;
     fn kill(pid: i32, sig: i32) -> i32;
     fn getppid() -> i32;
